@@ -35,6 +35,13 @@ var constOp = map[action]func(*node){
 	aBitNot: bitNotConst,
 	aNeg:    negConst,
 	aPos:    posConst,
+
+	aEqual:        compareConst,
+	aNotEqual:     compareConst,
+	aLower:        compareConst,
+	aLowerEqual:   compareConst,
+	aGreater:      compareConst,
+	aGreaterEqual: compareConst,
 }
 
 var constBltn = map[string]func(*node){
@@ -105,7 +112,10 @@ func (interp *Interpreter) cfg(root *node, sc *scope, importPath, pkgName string
 					n.typ = dest.typ
 				}
 			case binaryExpr, unaryExpr, parenExpr:
-				n.typ = n.anc.typ
+				if !isBoolAction(n.anc) {
+					// The boolean result type of a comparison is unrelated to the type of its operands.
+					n.typ = n.anc.typ
+				}
 			}
 
 		case defineStmt:
@@ -1878,6 +1888,13 @@ func (interp *Interpreter) cfg(root *node, sc *scope, importPath, pkgName string
 			setFNext(n.child[0], n)
 			n.child[1].tnext = n
 			n.typ = n.child[0].typ
+			if x, y := constValue(n.child[0].rval), constValue(n.child[1].rval); x != nil && y != nil {
+				// Compute a constant result now rather than during exec.
+				n.rval = reflect.ValueOf(constant.BoolVal(x) && constant.BoolVal(y))
+				n.gen = nop
+				n.findex = notInFrame
+				break
+			}
 			n.findex = sc.add(n.typ)
 
 		case lorExpr:
@@ -1893,6 +1910,13 @@ func (interp *Interpreter) cfg(root *node, sc *scope, importPath, pkgName string
 			setFNext(n.child[0], n.child[1].start)
 			n.child[1].tnext = n
 			n.typ = n.child[0].typ
+			if x, y := constValue(n.child[0].rval), constValue(n.child[1].rval); x != nil && y != nil {
+				// Compute a constant result now rather than during exec.
+				n.rval = reflect.ValueOf(constant.BoolVal(x) || constant.BoolVal(y))
+				n.gen = nop
+				n.findex = notInFrame
+				break
+			}
 			n.findex = sc.add(n.typ)
 
 		case parenExpr:
